@@ -62,4 +62,45 @@ func init() {
 		"		maps.Copy(descendants, childDescendants)\n		descendants[child.ID] = child", "		if len(childDescendants) == 0 {\n			return descendants, nil\n		}\n		maps.Copy(descendants, childDescendants)\n		descendants[child.ID] = child", "C16.R3.create")
 	mut("C16", "existing relationship reported as an error-free create of a duplicate", wdag,
 		"	if err != nil || exists {\n		return err\n	}\n	if err := d.validateResourcesExist(ctx, from, to); err != nil {", "	if err != nil {\n		return err\n	}\n	_ = exists\n	if err := d.validateResourcesExist(ctx, from, to); err != nil {", "C16.R3.create")
+
+	// ---------------- C17
+	const gw = "x/go/gorp/writer.go"
+	const gt = "x/go/gorp/table.go"
+	const gg = "x/go/gorp/gorp.go"
+	const gd = "x/go/gorp/delta.go"
+	const gi = "x/go/gorp/index.go"
+	mut("C17", "Writer.delete forgets to stage the indexes", gw,
+		"	for _, idx := range w.indexes {\n		idx.stageDelete(w.tx, key)\n	}\n	return nil", "	return nil", "C17.R1.stage")
+	mut("C17", "Writer.set stages only the first index", gw,
+		"	for _, idx := range w.indexes {\n		idx.stageSet(w.tx, entry)\n	}", "	for i, idx := range w.indexes {\n		if i > 0 {\n			continue\n		}\n		idx.stageSet(w.tx, entry)\n	}", "C17.R1.stage")
+	mut("C17", "Writer.set stages before the row write", gw,
+		"	v := w.keyCodec.encode(entry.GorpKey())\n	if err := w.tx.Set(ctx, v, data, entry.SetOptions()...); err != nil {\n		return err\n	}\n	for _, idx := range w.indexes {\n		idx.stageSet(w.tx, entry)\n	}\n	return nil",
+		"	v := w.keyCodec.encode(entry.GorpKey())\n	for _, idx := range w.indexes {\n		idx.stageSet(w.tx, entry)\n	}\n	if err := w.tx.Set(ctx, v, data, entry.SetOptions()...); err != nil {\n		return err\n	}\n	return nil", "C17.R1.stage")
+	mut("C17", "Table.NewUpdate drops the index list", gt,
+		"	u.retrieve.keyPrefix = t.keyPrefix\n	u.indexes = t.indexes\n", "	u.retrieve.keyPrefix = t.keyPrefix\n", "C17.R2.propagate")
+	mut("C17", "Delete.Exec builds an index-less writer", "x/go/gorp/delete.go",
+		"wrapWriter[K, E](tx, d.retrieve.keyPrefix, d.indexes)", "wrapWriter[K, E](tx, d.retrieve.keyPrefix, nil)", "C17.R2.propagate")
+	mut("C17", "channel rows written through a free writer", "core/pkg/distribution/channel/lease_proxy.go",
+		"func (s *Service) createAndUpdateFreeVirtual(", "func touchChannelRows(ctx context.Context, tx gorp.Tx, chs []Channel) error {\n	return gorp.NewCreate[Key, Channel]().Entries(&chs).Exec(ctx, tx)\n}\n\nfunc (s *Service) createAndUpdateFreeVirtual(", "C17.R3.tableonly")
+	mut("C17", "Commit reports success to the cleanups unconditionally", gg,
+		"	t.state.runCleanups(err == nil)", "	t.state.runCleanups(true)", "C17.R4.hooks")
+	mut("C17", "Close forgets the cleanups", gg,
+		"	err := t.Tx.Close()\n	t.state.runCleanups(false)\n	return err", "	err := t.Tx.Close()\n	return err", "C17.R4.hooks")
+	mut("C17", "aborted deltas are flushed too", gd,
+		"		if committed && d != nil && !d.isEmpty() && o.flush != nil {", "		if d != nil && !d.isEmpty() && o.flush != nil {", "C17.R4.hooks")
+	mut("C17", "delta kept after the transaction ended", gd,
+		"		d := o.txDeltas[state]\n		delete(o.txDeltas, state)\n		o.deltaMu.Unlock()", "		d := o.txDeltas[state]\n		o.deltaMu.Unlock()", "C17.R4.hooks")
+	mut("C17", "LookupIndex.set mutates without the index lock", gi,
+		"func (l *LookupIndex[K, E, V]) set(entry E) {\n	l.mu.Lock()\n	defer l.mu.Unlock()\n", "func (l *LookupIndex[K, E, V]) set(entry E) {\n", "C17.R5.GUARD")
+	mut("C17", "SortedIndex.Get reads entries after releasing the lock", gi,
+		"func (s *SortedIndex[K, E, V]) delete(key K) {\n	s.mu.Lock()\n	defer s.mu.Unlock()\n", "func (s *SortedIndex[K, E, V]) delete(key K) {\n	s.mu.RLock()\n	defer s.mu.RUnlock()\n", "C17.R5.GUARD")
+	mut("C17", "observer attached before populate", gt,
+		"	for _, idx := range cfg.Indexes {\n		insert, finish := idx.populate()\n		inserts = append(inserts, insert)\n		finishes = append(finishes, finish)\n	}\n	t.disconnectObserver = attachIndexObserver[K, E](\n		override.Nil[observe.Observable[kv.TxReader]](cfg.DB, cfg.DB.IndexObservable),\n		cfg.DB,\n		cfg.Indexes,\n	)",
+		"	t.disconnectObserver = attachIndexObserver[K, E](\n		override.Nil[observe.Observable[kv.TxReader]](cfg.DB, cfg.DB.IndexObservable),\n		cfg.DB,\n		cfg.Indexes,\n	)\n	for _, idx := range cfg.Indexes {\n		insert, finish := idx.populate()\n		inserts = append(inserts, insert)\n		finishes = append(finishes, finish)\n	}", "C17.R5.populate")
+	mut("C17", "stageSet skips a restage of an equal value", gd,
+		"func (d *delta[K, V]) stageSet(key K, value V) {\n	if prev, ok := d.state[key]; ok && !prev.deleted {\n		d.removeFromForward(key, prev.value)\n	}",
+		"func (d *delta[K, V]) stageSet(key K, value V) {\n	if prev, ok := d.state[key]; ok {\n		if prev.value == value {\n			return\n		}\n		if !prev.deleted {\n			d.removeFromForward(key, prev.value)\n		}\n	}", "C17.R6.delta")
+	mut("C17", "observer applies all sets before all deletes", gt,
+		"			for ch := range changes {\n				switch ch.Variant {\n				case change.VariantSet:\n					for _, idx := range indexes {\n						idx.set(ch.Value)\n					}\n				case change.VariantDelete:\n					for _, idx := range indexes {\n						idx.delete(ch.Key)\n					}\n				}\n			}",
+		"			var dels []K\n			for ch := range changes {\n				switch ch.Variant {\n				case change.VariantSet:\n					for _, idx := range indexes {\n						idx.set(ch.Value)\n					}\n				case change.VariantDelete:\n					dels = append(dels, ch.Key)\n				}\n			}\n			for _, k := range dels {\n				for _, idx := range indexes {\n					idx.delete(k)\n				}\n			}", "C17.R6.delta")
 }
